@@ -423,6 +423,8 @@ def execute(task, rec, world, shadow=True):
     """Run one op record on the real code (and on the shadow).  Stores outputs."""
     op = OPS[rec["op"]]
     ins = [task.slots[s] for s in rec["in"]]
+    if world is not None:
+        world.krylov_calls = 0          # step budget of the Krylov probe (sim/e2w.py) is per op
     if op.creates and world is not None:
         world.reseed(getattr(task, "data_key", task.id), rec["id"])
     outs = op.run(task, rec, ins)
